@@ -451,10 +451,10 @@ Proof.
   pose proof (sqrtW_pos (lat t * (PI/180))) as HQ.
   subst X Y Z uN uE uD lonI. unfold vi_x, vi_y, vi_z, dot3, nav_Rn, nav_Re, R_meridian, R_transverse, W2, lon_i, A_, E2_.
   unf_en. unf_ecef. 
-  split_all; (auto_derive; [split_all; auto; unfold Rminus in *; lra|]);
+  split_all; (auto_derive; [canon; split_all; auto; lra|]);
     rewrite ?(is_derive_unique (fun x : R => lat x) t dlat Hlat), ?(is_derive_unique (fun x : R => lon x) t dlon Hlon),
       ?(is_derive_unique (fun x : R => alt x) t dalt Halt);
-    fold_minus; rewrite ?cos_m90, ?sin_m90; unfold d2r;
+    canon; rewrite ?cos_m90, ?sin_m90; unfold d2r;
     set (phi := lat t * (PI / 180)) in *; set (l := (lon t + RATE_ * (180 / PI) * t) * (PI / 180));
     with_q phi;
     assert (Hc : cos phi * cos phi = 1 - sin phi * sin phi) by (pose proof (sc1 phi); lra);
